@@ -27,7 +27,17 @@ Theorem c14_show_separates : forall c, wf c = true -> tokenize (show repaired_fl
 Proof. exact show_separates. Qed.
 Print Assumptions c14_show_separates.
 
-(** unchanged printer: outside the class of the open findings *)
+(** the printer as it is now (regenerated flags = repaired): every well-formed command, no side condition *)
+Theorem c14_show_separates_current : forall c, wf c = true -> tokenize (show current_flags c) = lexemes current_flags c.
+Proof. exact show_separates_current. Qed.
+Print Assumptions c14_show_separates_current.
+
+Theorem c14_print_parse_print_current : forall c, ParseFlat.flat_fun c = true -> wf c = true ->
+  ParseFlat.parse (tokenize (show current_flags c)) = Some c.
+Proof. exact ParseFlat.parse_show_current. Qed.
+Print Assumptions c14_print_parse_print_current.
+
+(** regression examples, printer before the repairs: outside the class of the findings since repaired *)
 Theorem c14_show_separates_outside_known : forall c, ~ Known c -> tokenize (show old_flags c) = lexemes old_flags c.
 Proof. exact show_separates_outside_known. Qed.
 Print Assumptions c14_show_separates_outside_known.
